@@ -16,6 +16,21 @@ def rule(tu, rec):
     fault_rules(ck, owners, fm, "F", fns=OPS)
 
 
+class _NoFieldMap:
+    size = None
+
+
+ELEM_OPS = ("w_ctor", "w_ctor_mref", "w_ctor_rref", "w_copy_ctor", "w_copy_ctor_alloc", "w_move_ctor_alloc", "w_copy_assign", "w_move_assign")
+
+
+def rule_elem(tu, rec):
+    """the same fault enumeration on the ContiguousElement special members that allocate"""
+    ck = Checker(tu, rec, "C17")
+    owners = discover_owners(tu)
+    ownership(ck, owners, "OWN-E", fns=ELEM_OPS, exits=("resume",))
+    fault_rules(ck, owners, _NoFieldMap(), "FE", fns=ELEM_OPS)
+
+
 def run(tier, seed, only=None):
     C = config
     cfgs = vector_configs(tier, seed, alloc_lists=("OneFixed", "OneVarying", "ObjFixed", "ObjVarying", "Plain", "OneFixedOneVarying"))
@@ -27,5 +42,6 @@ def run(tier, seed, only=None):
         "released twice, no owner field holding a released block; blocks of a half-constructed object all released) (F1/F2/"
         "F6); elements destroyed before the fault are no longer counted by size() (F3); reserve and the source of a copy are "
         "untouched (F4); the unwind path reaches the caller, never std::terminate (F5).  Value-type constructor throws are "
-        "outside the property's fault model.",
-        cfgs=cfgs, min_ob=800, flags=(), tag="+eh")
+        "outside the property's fault model.  OWN-E / FE: the same on every allocating ContiguousElement special member "
+        "(construction from references, copy / allocator-extended construction, copy / move assignment).",
+        cfgs=cfgs, min_ob=800, flags=(), tag="+eh", elements="rule_elem", elements_eh=True)
